@@ -19,6 +19,7 @@ from ..ref import quat as rq
 PROP = "C06"
 LEVEL = "exploration"
 SHARDS = {"quick": 4, "thorough": 16}
+THOROUGH_DEPTH = 40      # thorough tier = this many times the base thorough budget (VERIF_DEPTH overrides)
 TOL_BS = 1e-13
 STREAMERS = ["Madgwick/IMU", "Madgwick/MARG", "Mahony/IMU", "Mahony/MARG", "EKF/IMU/NED", "EKF/IMU/ENU", "EKF/MARG/NED", "EKF/MARG/ENU", "UKF",
              "AQUA/IMU", "AQUA/MARG", "AQUA/IMU/adaptive", "AQUA/MARG/adaptive", "Fourati", "ROLEQ/NED", "ROLEQ/ENU"]
@@ -83,7 +84,7 @@ def params_for(rng, name, explicit):
 
 
 def generate(rng, tier, shard, nshards):
-    reps = 3 if tier == "quick" else 12
+    reps = 3 if tier == "quick" else gens.reps(12, tier)
     k = 0
     for rep in range(reps):
         for name in STREAMERS + EXTRA:
